@@ -406,6 +406,28 @@ def rootIn (ρ : Orders) (hash : (Addr → Option Nat) → Nat) (dirty : List Ad
     (leaf : Addr → Option Nat) (trie : Addr → Option Nat) : Nat :=
   hash (finaliseIn (ρ.dirty dirty) leaf trie)
 
+/-! ## where the flags come from -/
+
+/-- activation heights of the proposals the model looks at (`common.LocalChainConfig`) -/
+structure ForkTable where
+  p006 : Nat
+  p007 : Nat
+  p016 : Nat
+  p018 : Nat
+  p021 : Nat
+  p023 : Nat
+  deriving Repr, DecidableEq, Inhabited
+
+/-- `common.IsProposalNNN()` = `isForked(base, common.GetBlockHeight())`: the flags are read from
+    the *process-wide* chain height `g` (the node's own top), not from the header executed. -/
+def flagsAt (t : ForkTable) (g : Nat) : Flags :=
+  ⟨decide (g ≥ t.p006), decide (g ≥ t.p007), decide (g ≥ t.p016), decide (g ≥ t.p018), decide (g ≥ t.p021), decide (g ≥ t.p023)⟩
+
+/-- block execution on a node whose chain top is `g` -/
+def execBlockAt (ρ : Orders) (env : Env) (t : ForkTable) (g : Nat) (hd : Header) (reward : Option RewardIn)
+    (ids : List Addr) (s : St) (txs : List Tx) : Result :=
+  execBlock ρ env (flagsAt t g) hd reward ids s txs
+
 /-- Go panics in `Less` when two zero-requestId txs of one source share nonce and hash. -/
 def hasEqualHashPair (f : Flags) : List Tx → Bool
   | [] => false
